@@ -1,9 +1,15 @@
 // Seam S1: the members declared in ninja's subprocess.h, implemented over simulated commands.
 // RealCommandRunner, Builder, Plan and Pool stay real; this file owns which running command(s)
 // finish at each wait, with which status and output, and whether an interrupt arrives.
+#include <dirent.h>
+#include <errno.h>
+#include <fcntl.h>
 #include <setjmp.h>
 #include <stdio.h>
+#include <stdlib.h>
 #include <string.h>
+#include <sys/ioctl.h>
+#include <sys/stat.h>
 #include <unistd.h>
 
 #include <algorithm>
@@ -42,6 +48,97 @@ static void Record(Event::Kind k, int cmd, int status = 0) {
   g_cur.res->events.push_back(e);
 }
 
+// ---- seam S6a: the jobserver pool -------------------------------------------------------------------
+// A real FIFO under /dev/shm, one per worker process.  ninja's own client code (jobserver-posix.cc) opens, reads
+// and writes it; the harness plays the pool's owner and one other client ("make" with further jobs), whose
+// takes and returns are choice points.  Within one process nothing else touches the FIFO: deterministic.
+static struct {
+  int fd = -1;
+  string path;
+  bool on = false;
+  int total = 0, ext_held = 0, ext_max = 0, moves_left = 0;
+} g_js;
+
+bool JsOn() { return g_js.on; }
+
+int JsAvail() {
+  int n = 0;
+  if (ioctl(g_js.fd, FIONREAD, &n) != 0) return 0;
+  return n;
+}
+
+int JsNinjaHolds() { return g_js.total - JsAvail() - g_js.ext_held; }
+
+void JsBegin(const RunConfig& cfg) {
+  g_js.on = cfg.js_tokens >= 0;
+  if (!g_js.on) return;
+  if (g_js.fd < 0) {
+    g_js.path = "/dev/shm/nxjs." + to_string((long)getpid());
+    unlink(g_js.path.c_str());
+    if (mkfifo(g_js.path.c_str(), 0600) != 0) { perror("nx: mkfifo"); _exit(2); }
+    g_js.fd = open(g_js.path.c_str(), O_RDWR | O_NONBLOCK | O_CLOEXEC);
+    if (g_js.fd < 0) { perror("nx: open fifo"); _exit(2); }
+    static string path_copy;
+    path_copy = g_js.path;
+    atexit([] { unlink(path_copy.c_str()); });
+  }
+  char c;
+  while (read(g_js.fd, &c, 1) == 1) {}
+  for (int i = 0; i < cfg.js_tokens; ++i) (void)!write(g_js.fd, "+", 1);
+  g_js.ext_held = cfg.js_ext_held;
+  g_js.ext_max = max(cfg.js_ext_max, cfg.js_ext_held);
+  g_js.moves_left = cfg.js_moves;
+  g_js.total = cfg.js_tokens + cfg.js_ext_held;
+  if (!cfg.env.count("MAKEFLAGS")) setenv("MAKEFLAGS", (" -j8 --jobserver-auth=fifo:" + g_js.path).c_str(), 1);
+}
+
+void JsEnd(RunResult* res) {
+  if (!g_js.on) return;
+  res->js_total = g_js.total;
+  res->js_final = JsAvail() + g_js.ext_held;
+  g_js.on = false;
+  // exit() does not run destructors: the client's two descriptors stay open, as they would until the process is gone
+  vector<int> leaked;
+  if (DIR* dir = opendir("/proc/self/fd")) {
+    while (struct dirent* e = readdir(dir)) {
+      int fd = atoi(e->d_name);
+      if (fd <= 2 || fd == g_js.fd || fd == dirfd(dir)) continue;
+      char buf[256];
+      ssize_t n = readlink(("/proc/self/fd/" + string(e->d_name)).c_str(), buf, sizeof buf - 1);
+      if (n > 0 && string(buf, (size_t)n) == g_js.path) leaked.push_back(fd);
+    }
+    closedir(dir);
+  }
+  for (int fd : leaked) close(fd);
+}
+
+/// The other client of the pool acts: any number of takes / returns while its budget of moves lasts.
+static void JsExternalMoves() {
+  while (g_js.on && g_js.moves_left > 0) {
+    bool can_take = g_js.ext_held < g_js.ext_max && JsAvail() > 0;
+    bool can_give = g_js.ext_held > 0;
+    if (!can_take && !can_give) return;
+    int c = g_cur.ch->Choose(1 + (can_take ? 1 : 0) + (can_give ? 1 : 0));
+    if (c <= 0) return;
+    bool take = can_take && c == 1;
+    Event e;
+    e.kind = Event::kToken;
+    e.tick = vfs::disk->now;
+    e.op_index = vfs::op_count;
+    if (take) {
+      char ch;
+      if (read(g_js.fd, &ch, 1) == 1) g_js.ext_held++;
+      e.status = -1;
+    } else {
+      (void)!write(g_js.fd, "+", 1);
+      g_js.ext_held--;
+      e.status = +1;
+    }
+    g_js.moves_left--;
+    g_cur.res->events.push_back(e);
+  }
+}
+
 static string DirOf(const string& p) {
   size_t i = p.rfind('/');
   return i == string::npos ? string() : p.substr(0, i);
@@ -74,6 +171,7 @@ static int StartCmd(const string& command, bool console) {
   R.cmds.push_back(rc);
   int idx = (int)R.cmds.size() - 1;
   Record(Event::kStart, idx);
+  if (JsOn()) R.events.back().held = JsNinjaHolds();
   return idx;
 }
 
@@ -217,11 +315,18 @@ SubprocessSet::WorkResult SubprocessSet::DoWork() {
   const RunConfig& cfg = *g_cur.cfg;
   if (++g_cur.waits > cfg.step_horizon) AbortInvocation(2);
 
+  // what the other client of the jobserver pool does while ninja is on its way into ppoll()
+  const bool js = JsOn();
+  const bool watch = js && jobserver_fd_ >= 0;
+  if (js) JsExternalMoves();
+  const int avail = js ? JsAvail() : 0;
+
   Event w;
   w.kind = Event::kWait;
   w.tick = vfs::disk->now;
   w.op_index = vfs::op_count;
   for (Subprocess* s : running_) w.running.push_back(s->pid_);
+  if (js) { w.avail = avail; w.watch = watch; w.held = JsNinjaHolds(); }
   R.events.push_back(w);
 
   // Environment edits that fire while a given command runs (scheduled before any completion).
@@ -241,7 +346,17 @@ SubprocessSet::WorkResult SubprocessSet::DoWork() {
   }
 
   size_t n = running_.size();
-  bool token_alt = false;  // jobserver alternative is added by the jobserver-aware build (later)
+  // a readable pool ends ppoll() at once when ninja watches it
+  bool token_alt = watch && avail > 0;
+  if (token_alt && g_cur.last_token_wake && R.cmds.size() == g_cur.cmds_at_wake && avail == g_cur.avail_at_wake) {
+    // ninja was told so a moment ago and neither took a token nor started anything: ppoll() keeps returning at once and
+    // ninja spins until something else happens.  Commands do end: the next event is a completion (or an interrupt); with
+    // nothing running the spinning never ends.
+    R.js_spins++;
+    token_alt = false;
+    if (n == 0) AbortInvocation(2);
+  }
+  g_cur.last_token_wake = false;
   if (n == 0 && !token_alt) {
     // ppoll() on an empty set with no signal pending blocks forever.
     AbortInvocation(1);
@@ -267,8 +382,22 @@ SubprocessSet::WorkResult SubprocessSet::DoWork() {
       alts.push_back(all);
     }
   }
-  int nalt = (int)alts.size() + (cfg.allow_interrupt ? 1 : 0);
+  // With a readable pool the default is "a token is available" (ppoll returns at once); the completions are then
+  // commands that finish at that very instant.
+  const int base = token_alt ? 1 : 0;
+  int nalt = base + (int)alts.size() + (cfg.allow_interrupt ? 1 : 0);
   int c = g_cur.ch->Choose(nalt);
+  if (c >= 0) {
+    if (token_alt && c == 0) {
+      // "only react to jobserver tokens if no other work was done"
+      if (js) JsExternalMoves();   // ... and the token may be gone again before ninja tries to take it
+      g_cur.last_token_wake = true;
+      g_cur.cmds_at_wake = R.cmds.size();
+      g_cur.avail_at_wake = JsAvail();
+      return WorkResult::JobserverTokenAvailable;
+    }
+    c -= base;
+  }
   if (c == -2) {
     // symbolic: the running command whose id is alphabetically last finishes alone (independent of start order)
     size_t best = 0;
@@ -287,6 +416,7 @@ SubprocessSet::WorkResult SubprocessSet::DoWork() {
   const vector<size_t>& pick = alts[c];
   for (size_t k = 0; k < pick.size(); ++k) Complete(this, pick[k]);
   for (size_t k = pick.size(); k-- > 0;) running_.erase(running_.begin() + pick[k]);
+  if (js) JsExternalMoves();
   return WorkResult::SubprocFinished;
 }
 
